@@ -695,7 +695,7 @@ def has_float_token(text):
 PATH_POOL = ['/mem/m.json', '/mem/e/m', '/mem/mem/x', '/mem/mem', '/mem/e', '/mem/a/b/c.json', '/mem/a/b', '/mem/a', '/mem/a/b/c.json/d',
              '/mem/me', '/mem/em/me.json', '/mem//a///b/c.json', '/mem/a/b/', '/mem/x.y/z', '/mem/m', '/mem/e/m/', '/mem/\xfc/\xe9.json',
              '/mem/mem/mem/m.e', '/mem/e/e/e', '/mem/a//b', '/mem/memory.json', '/mem/e.json']
-FS_ERR = {FileNotFoundError: 1, IsADirectoryError: 2, NotADirectoryError: 3, FileExistsError: 4, TypeError: 5, AttributeError: 6, AssertionError: 7}
+FS_ERR = {FileNotFoundError: 1, IsADirectoryError: 2, NotADirectoryError: 3, FileExistsError: 4, TypeError: 5, AttributeError: 6, AssertionError: 7, OSError: 10}
 MODES = {'r': 1, 'w': 2, 'a': 4, 'wr': 3, 'ar': 5}
 
 def fs_err(e):
@@ -723,7 +723,9 @@ def gen_fs_history(r, vg, n_ops):
     elif x < 0.96:
       recs = [line_record(r, vg) for _ in range(r.randint(0, 3))]
       ops.append(dict(op='seqwrite', path=p, mode=r.choice(['w', 'a']), records=recs))
-    else: ops.append(dict(op='seqread', path=p))
+    elif x < 0.975: ops.append(dict(op='seqread', path=p))
+    else:
+      ops.append(dict(op=r.choice(['mkdir', 'rmdir', 'rmdirs']), path=r.choice([p, os.path.dirname(p) if os.path.dirname(p) != '/mem' else p, p + '/sub'])))
   return ops
 
 def raw_text(s):
@@ -766,6 +768,9 @@ def fs_case_tree(ops, texts):
     elif k == 'write': out.append([7, p, MODES[o['mode']], S(o['text'])])
     elif k == 'seqwrite': out.append([8, p, MODES[o['mode']], [S(x) for x in o['records']]])
     elif k == 'seqread': out.append([9, p])
+    elif k == 'mkdir': out.append([10, p])
+    elif k == 'rmdir': out.append([11, p])
+    elif k == 'rmdirs': out.append([12, p])
   return out
 
 def text_records(text):
@@ -833,6 +838,12 @@ def run_fs_history(ops, mapper):
         io.rm(path); last.pop(key(path), None); out = [0]
       elif k == 'mkdirs':
         io.mkdirs(path); out = [0]
+      elif k == 'mkdir':
+        io.mkdir(path); out = [0]
+      elif k == 'rmdir':
+        io.rmdir(path); out = [0]
+      elif k == 'rmdirs':
+        io.rmdirs(path); out = [0]
       elif k == 'exists':
         out = [2, 1 if io.path_exists(path) else 0]
         if key(path) in last and out[1] == 0 and not path.endswith('/'):
@@ -892,6 +903,7 @@ def fs_oracle_pair(ops, std_root):
   dump = dump_memfs(fs)
   shutil.rmtree(std_root, ignore_errors=True)
   os.makedirs(std_root)
+  open(os.path.join(os.path.dirname(std_root), '.keep'), 'w').close()      # os.removedirs (rmdirs) stops below this directory
   so, _, shits = run_fs_history(ops, lambda q: std_root + q[4:])
   hits = hits + [(s.replace('C05/fs/', 'C05/stdfs/'), w) for s, w in shits]
   # both file systems accept / refuse the same writes and reads
